@@ -12,7 +12,13 @@ REPOPKG = {"pkg": "./pkg/repo", "files": ["pkg/repo/h_c18_index.go"]}
 
 ACTION = {"pkg": "./pkg/action", "files": ["pkg/action/h_common.go", "pkg/action/h_smoke.go", "pkg/action/h_c01_hist.go", "pkg/action/h_c06_dryrun.go", "pkg/action/h_c12_hooks.go", "pkg/action/h_c07_own.go", "pkg/action/h_c14_schema.go"]}
 
+CHARTUTIL = {"pkg": "./pkg/chart/v2/util", "files": ["pkg/chart/v2/util/h_values.go"]}
+
 CHECKS = {
+    "C11": {
+        "runs": [dict(CHARTUTIL, entries=["H11Scope"], bounds_quick={"depth": 2, "slim": 1, "pdepth": 0}, bounds_thorough={"depth": 2, "slim": 1, "pdepth": 1})],
+        "bounds": {}, "assumptions": [],
+    },
     "ACTIONSMOKE": {"runs": [dict(ACTION, entries=["HSmoke"])], "bounds": {}, "assumptions": []},
     "C18": {
         "runs": [dict(REPOPKG, entries=["H18Index"], bounds_quick={"entries": 2, "shapes": 5, "maxdigit": 3}, bounds_thorough={"entries": 3, "shapes": 5, "maxdigit": 9})],
@@ -71,6 +77,7 @@ CHECKS = {
         "runs": [
             dict(STRVALS, entries=["H04SetScalar", "H04SetTyped", "H04SetList", "H04SetLiteral", "H04SetFrame"],
                  bounds_quick={"maxlen": 5}, bounds_thorough={"maxlen": 7}),
+            dict(CHARTUTIL, entries=["H04Coalesce"], bounds_quick={"depth": 2, "slim": 1}, bounds_thorough={"depth": 2, "slim": 0}),
         ],
         "bounds": {"quick": "atoms 1-4 symbolic bytes a-z; list index 0-3; arbitrary-input frame harness: 0-5 symbolic bytes over the 15-symbol alphabet -ay01=,.[]{}\\ and space",
                    "thorough": "same, frame harness 0-7 bytes"},
